@@ -24,6 +24,8 @@ package geom
 //@ prop C06
 
 //@ func appendGeoJSONCoordinate
+//@   split coords.Type 0 1 2 3
+//@   requires coords.Type < 4
 //@   modifies dst
 //@   ensures Kept(result, dst) && len(result) >= len(dst) + 5 && result[len(dst)] == 91 && result[len(result) - 1] == 93
 
